@@ -196,8 +196,9 @@ AddNFTToDest(w, s, a, tok, x, verify, rae, multi) ==
             IF Blocked(w, s, a, tok, cur, rae) THEN F(w)
             ELSE IF cur.hm /\ (~x.hm \/ cur.meta.hash # x.meta.hash) THEN F(w)
             ELSE LET add == IF multi /\ BugOn("D1") /\ ~cur.hm THEN 0 ELSE cur.val
-                     \* D10: the freeze flag belongs to the account: a fungible credit keeps the destination's own properties
-                     pr == IF multi /\ ~x.hm /\ ~BugOn("D10") THEN cur.props ELSE x.props IN
+                     \* D10 / D12: the freeze flag belongs to the account's own entry: a credit (fungible through the multi-transfer: D10;
+                     \* an NFT / SFT through either function: D12) keeps the destination's properties, the payload's do not travel
+                     pr == IF (multi /\ ~x.hm /\ ~BugOn("D10")) \/ (~(multi /\ ~x.hm) /\ ~BugOn("D12")) THEN cur.props ELSE x.props IN
                  SaveNFT(w, s, a, tok, [x EXCEPT !.val = x.val + add, !.props = pr], rae)
 
 RolesOf(ac, tok) == IF tok \in DOMAIN ac.roles THEN ac.roles[tok] ELSE <<>>
